@@ -351,3 +351,203 @@ Proof.
     rewrite <- defs_from_prio, E, defs_from_prio in X. unfold from_prio in X. apply filter_In in X as [X _]. exact X. }
   rewrite <- (at_top_from_prio n p fl2 H2). rewrite E. reflexivity.
 Qed.
+
+(* ---------- listings are exactly those derivable from the loaded files ---------- *)
+Lemma In_insert_sorted x y l : In x (insert_sorted y l) <-> y = x \/ In x l.
+Proof.
+  induction l as [|z r IH]; cbn [insert_sorted In]; [tauto|].
+  destruct (str_ltb z y); cbn [In]; [rewrite IH|]; tauto.
+Qed.
+Lemma In_sort_strings x l : In x (sort_strings l) <-> In x l.
+Proof.
+  unfold sort_strings. induction l as [|y r IH]; cbn [fold_right In]; [tauto|].
+  rewrite In_insert_sorted, IH. tauto.
+Qed.
+Lemma mem_s_In x l : mem_s x l = true <-> In x l.
+Proof.
+  unfold mem_s. rewrite existsb_exists. split.
+  - intros [y [Hy E]]. apply String.eqb_eq in E. subst. exact Hy.
+  - intro H. exists x. split; [exact H|apply String.eqb_refl].
+Qed.
+Lemma In_dedup_s x l : In x (dedup_s l) <-> In x l.
+Proof.
+  induction l as [|y r IH]; cbn [dedup_s In]; [tauto|].
+  destruct (mem_s y r) eqn:M.
+  - rewrite IH. apply mem_s_In in M. split; [auto|]. intros [<-|H]; auto.
+  - cbn [In]. rewrite IH. tauto.
+Qed.
+
+Lemma dlookup_In n m : dlookup n m <> None <-> In n (map fst m).
+Proof.
+  induction m as [|[k v] r IH]; cbn [dlookup map fst In]; [tauto|].
+  destruct (String.eqb n k) eqn:E.
+  - apply String.eqb_eq in E. subst. split; [auto|discriminate].
+  - rewrite IH. apply String.eqb_neq in E. split; [auto|]. intros [H|H]; [congruence|exact H].
+Qed.
+
+Theorem list_devices_iff c n : In n (list_devices c) <-> get_device c n <> None.
+Proof.
+  unfold list_devices, get_device. rewrite In_sort_strings, In_dedup_s, filter_In, <- dlookup_In.
+  destruct (mem_s n (c_conf c)); cbn [negb]; split; try tauto; intros [_ H]; discriminate.
+Qed.
+
+(* ListDevices lists exactly the names that resolve by the precedence rule *)
+Theorem list_devices_exact files n :
+  sorted (loaded files) -> unique_names files ->
+  (In n (list_devices (refresh_files files)) <-> resolve_spec (loaded files) n <> None).
+Proof. intros S U. rewrite list_devices_iff, refresh_resolves by assumption. tauto. Qed.
+
+Lemma add_dev_specs f st d : r_specs (add_dev f st d) = r_specs st.
+Proof.
+  unfold add_dev. destruct (dlookup (qname f d) (r_devs st)) as [old|]; [|reflexivity].
+  destruct (Nat.ltb (lf_prio (cd_file old)) (lf_prio f)); [reflexivity|].
+  destruct (Nat.eqb (lf_prio f) (lf_prio (cd_file old))); reflexivity.
+Qed.
+Lemma fold_add_dev_specs f l : forall st, r_specs (fold_left (add_dev f) l st) = r_specs st.
+Proof. induction l as [|d r IH]; intro st; cbn [fold_left]; [reflexivity|]. rewrite IH. apply add_dev_specs. Qed.
+
+Lemma vendor_specs_add v f m w :
+  vendor_specs (add_spec v f m) w = if String.eqb w v then (vendor_specs m w ++ [f])%list else vendor_specs m w.
+Proof.
+  induction m as [|[k l] r IH]; cbn [add_spec vendor_specs].
+  - destruct (String.eqb w v); reflexivity.
+  - destruct (String.eqb v k) eqn:E; cbn [vendor_specs].
+    + apply String.eqb_eq in E. subst k. destruct (String.eqb w v); reflexivity.
+    + destruct (String.eqb w k) eqn:Ew.
+      * apply String.eqb_eq in Ew. subst k. rewrite String.eqb_sym, E. reflexivity.
+      * exact IH.
+Qed.
+
+(* GetVendorSpecs(v): exactly the loaded files of that vendor, in scan order (shadowed ones included) *)
+Theorem vendor_specs_exact files v : forall st,
+  vendor_specs (r_specs (fold_left add_scanned files st)) v =
+  (vendor_specs (r_specs st) v ++ filter (fun f => String.eqb v (vendor_of f)) (loaded files))%list.
+Proof.
+  induction files as [|x r IH]; intro st; cbn [fold_left loaded filter]; [rewrite app_nil_r; reflexivity|].
+  rewrite IH. destruct x as [f|p]; cbn [add_scanned loaded filter r_specs]; [|reflexivity].
+  rewrite fold_add_dev_specs. cbn [r_specs]. rewrite vendor_specs_add.
+  destruct (String.eqb v (vendor_of f)); [rewrite <- app_assoc; reflexivity|reflexivity].
+Qed.
+
+Lemma keys_add_spec v f m w : In w (map fst (add_spec v f m)) <-> v = w \/ In w (map fst m).
+Proof.
+  induction m as [|[k l] r IH]; cbn [add_spec map fst In]; [tauto|].
+  destruct (String.eqb v k) eqn:E; cbn [map fst In].
+  - apply String.eqb_eq in E. subst. tauto.
+  - rewrite IH. tauto.
+Qed.
+Lemma files_add_spec v f m g : In g (flat_map snd (add_spec v f m)) <-> f = g \/ In g (flat_map snd m).
+Proof.
+  induction m as [|[k l] r IH]; cbn [add_spec flat_map snd In app]; [tauto|].
+  destruct (String.eqb v k) eqn:E; cbn [flat_map snd].
+  - rewrite !in_app_iff. cbn [In]. tauto.
+  - rewrite !in_app_iff, IH. tauto.
+Qed.
+
+Lemma specs_members files : forall st,
+  (forall w, In w (map fst (r_specs (fold_left add_scanned files st))) <->
+             In w (map fst (r_specs st)) \/ In w (map vendor_of (loaded files))) /\
+  (forall g, In g (flat_map snd (r_specs (fold_left add_scanned files st))) <->
+             In g (flat_map snd (r_specs st)) \/ In g (loaded files)).
+Proof.
+  induction files as [|x r IH]; intro st; cbn [fold_left loaded map In]; [split; intro; tauto|].
+  destruct (IH (add_scanned st x)) as [I1 I2]. split; [intro w; rewrite I1|intro g; rewrite I2];
+    destruct x as [f|p]; cbn [add_scanned loaded map In r_specs]; try tauto;
+    rewrite fold_add_dev_specs; cbn [r_specs].
+  - rewrite keys_add_spec. tauto.
+  - rewrite files_add_spec. tauto.
+Qed.
+
+Theorem list_vendors_exact files v :
+  In v (list_vendors (refresh_files files)) <-> exists f, In f (loaded files) /\ vendor_of f = v.
+Proof.
+  unfold list_vendors, refresh_files, refresh_st. cbn [c_specs]. rewrite In_sort_strings, In_dedup_s.
+  rewrite (proj1 (specs_members files (mkR [] [] [] []))). cbn [r_specs map In]. rewrite in_map_iff.
+  split; [intros [[]|[f [E H]]]; exists f; auto|intros [f [H E]]; right; exists f; auto].
+Qed.
+Theorem list_classes_exact files k :
+  In k (list_classes (refresh_files files)) <-> exists f, In f (loaded files) /\ class_of f = k.
+Proof.
+  unfold list_classes, refresh_files, refresh_st. cbn [c_specs]. rewrite In_sort_strings, In_dedup_s, in_map_iff.
+  split.
+  - intros [f [E H]]. apply (proj2 (specs_members files (mkR [] [] [] []))) in H. cbn [r_specs flat_map In] in H.
+    destruct H as [[]|H]. exists f. auto.
+  - intros [f [H E]]. exists f. split; [exact E|]. apply (proj2 (specs_members files (mkR [] [] [] []))). right. exact H.
+Qed.
+
+(* ---------- only Spec-named files directly inside a configured directory count ---------- *)
+Lemma insert_entry_perm_flat (g : string * entry -> list scanned) x l :
+  (forall y, In y l -> True) ->
+  g x = [] -> flat_map g (insert_entry x l) = flat_map g l.
+Proof.
+  intros _ Hx. induction l as [|y r IH]; cbn [insert_entry flat_map]; [rewrite Hx; reflexivity|].
+  destruct (str_ltb (fst y) (fst x)); cbn [flat_map]; [rewrite IH; reflexivity|rewrite Hx; reflexivity].
+Qed.
+
+(* adding an entry whose name is not a Spec name, or a sub-directory (whatever it contains), never changes the scan *)
+Theorem scan_ignores_entry prio dpath l x :
+  (is_spec_name (fst x) = false \/ snd x = ESub) ->
+  scan_dir prio (dpath, DDir (x :: l)) = scan_dir prio (dpath, DDir l).
+Proof.
+  intro H. cbn [scan_dir sort_entries fold_right]. apply insert_entry_perm_flat; [auto|].
+  destruct H as [H|H]; [rewrite H; reflexivity|]. rewrite H. destruct (is_spec_name (fst x)); reflexivity.
+Qed.
+(* a missing directory contributes nothing and an unscannable one does not stop the scan of the others *)
+Theorem scan_skips_unusable prio d r : snd d = DMissing \/ snd d = DUnscannable ->
+  scan_from prio (d :: r) = scan_from (S prio) r.
+Proof. destruct d as [p st]. cbn [snd]. intros [->| ->]; reflexivity. Qed.
+
+(* ---------- C13: isolation and the error report ---------- *)
+(* how n resolves depends only on the loaded files that define n: files that are invalid, unreadable, in unscannable
+   directories, or define other devices never matter *)
+Theorem isolation n fl1 fl2 : defs n fl1 = defs n fl2 -> resolve_spec fl1 n = resolve_spec fl2 n.
+Proof. unfold resolve_spec, at_top. intros ->. reflexivity. Qed.
+
+Lemma add_dev_errs_mono f st d p : In p (r_errs st) -> In p (r_errs (add_dev f st d)).
+Proof.
+  intro H. unfold add_dev. destruct (dlookup (qname f d) (r_devs st)) as [old|]; [|exact H].
+  destruct (Nat.ltb (lf_prio (cd_file old)) (lf_prio f)); [exact H|].
+  destruct (Nat.eqb (lf_prio f) (lf_prio (cd_file old))); [|exact H]. cbn [r_errs]. apply in_or_app. left. exact H.
+Qed.
+Lemma add_scanned_errs_mono st x p : In p (r_errs st) -> In p (r_errs (add_scanned st x)).
+Proof.
+  intro H. destruct x as [f|q]; cbn [add_scanned]; [|cbn [r_errs]; apply in_or_app; left; exact H].
+  generalize (s_devices (lf_spec f)) as l.
+  assert (G : forall l st', In p (r_errs st') -> In p (r_errs (fold_left (add_dev f) l st'))).
+  { induction l as [|d r IH]; intros st' H'; cbn [fold_left]; [exact H'|]. apply IH. apply add_dev_errs_mono. exact H'. }
+  intro l. apply G. exact H.
+Qed.
+Lemma fold_errs_mono files : forall st p, In p (r_errs st) -> In p (r_errs (fold_left add_scanned files st)).
+Proof. induction files as [|x r IH]; intros st p H; cbn [fold_left]; [exact H|]. apply IH. apply add_scanned_errs_mono. exact H. Qed.
+
+(* every failing Spec file has an entry in the error report, and an explicit refresh then returns an error *)
+Theorem failed_reported files p : In p (failed files) -> In p (error_keys (refresh_files files)).
+Proof.
+  unfold error_keys, refresh_files, refresh_st. cbn [c_errs]. rewrite In_sort_strings, In_dedup_s.
+  generalize (mkR [] [] [] []) as st. induction files as [|x r IH]; intros st H; cbn [failed] in H; [destruct H|].
+  cbn [fold_left]. destruct x as [f|q].
+  - apply IH. exact H.
+  - destruct H as [<-|H]; [|apply IH; exact H]. apply fold_errs_mono. cbn [add_scanned r_errs]. apply in_or_app. right. left. reflexivity.
+Qed.
+Theorem refresh_fails_iff c : refresh_fails c = true <-> error_keys c <> [].
+Proof.
+  unfold refresh_fails, error_keys. destruct (c_errs c) as [|p r] eqn:E; [split; [discriminate|intro H; exfalso; apply H; reflexivity]|].
+  split; [|reflexivity]. intros _ H.
+  assert (X : In p (sort_strings (dedup_s (p :: r)))) by (apply In_sort_strings, In_dedup_s; left; reflexivity).
+  rewrite H in X. destruct X.
+Qed.
+
+(* errors are recorded only for failing files and for loaded files (conflicts): a path in the report is one of those *)
+Lemma add_dev_errs_src f st d p : In p (r_errs (add_dev f st d)) ->
+  In p (r_errs st) \/ p = lf_path f \/ exists k cd, dlookup k (r_devs st) = Some cd /\ p = lf_path (cd_file cd).
+Proof.
+  unfold add_dev. destruct (dlookup (qname f d) (r_devs st)) as [old|] eqn:L; [|auto].
+  destruct (Nat.ltb (lf_prio (cd_file old)) (lf_prio f)); [auto|].
+  destruct (Nat.eqb (lf_prio f) (lf_prio (cd_file old))); [|auto]. cbn [r_errs]. intro H.
+  apply in_app_or in H as [H|[<-|[<-|[]]]]; auto. right. right. exists (qname f d), old. auto.
+Qed.
+
+(* memorylessness: the cache after a refresh is a function of the current directory contents only; in particular an
+   error entry is present iff its cause is present now (an entry disappears at the first refresh after repair) *)
+Theorem refresh_memoryless fs1 fs2 : scan fs1 = scan fs2 -> refresh fs1 = refresh fs2.
+Proof. unfold refresh. intros ->. reflexivity. Qed.
